@@ -150,6 +150,7 @@ pub fn record_c15(args: &Args, mut out: Out) -> usize {
     // solo runs: each in a process of its own, started before anything else exists in this process
     let exe = std::env::current_exe().unwrap();
     let mut solo_line = vec![];
+    let mut solo_text: Vec<String> = vec![];
     for i in 0..npool {
         let o = std::process::Command::new(&exe)
             .args(["c15-solo", "--seed", &seed.to_string(), "--pool", &npool.to_string(), "--index", &i.to_string()])
@@ -159,6 +160,7 @@ pub fn record_c15(args: &Args, mut out: Out) -> usize {
         let body = text.lines().find(|l| l.starts_with('{')).map(|l| l[1..l.len() - 1].to_string()).unwrap_or("\"outcome\":\"died\",\"items\":[]".to_string());
         out.line(&format!("{{\"op\":\"solo\",\"id\":{},{},{}}}", i, p[i].json_fields(), body));
         solo_line.push(out.n);
+        solo_text.push(body.clone());
     }
     // every interleaving enumerated by TLC (spec/Workers.tla), replayed on one thread against live iterators
     if let Some(path) = args.get("schedules") {
@@ -271,6 +273,73 @@ pub fn record_c15(args: &Args, mut out: Out) -> usize {
             match r {
                 Some((items, after)) => out.line(&format!("{{\"op\":\"thread\",\"id\":{},\"thread\":{},\"items\":{},\"after\":{}}}", solo_line[id], t, items_json(&items), after)),
                 None => out.line(&format!("{{\"op\":\"thread\",\"id\":{},\"thread\":{},\"items\":[[-2]],\"after\":-2}}", solo_line[id], t)),
+            }
+        }
+    }
+    // construction storm: every thread builds, drains and drops evaluators with short runs over and over, neighbouring
+    // threads always on different flops.  The items of each run are compared here with what the child process recorded
+    // for the same configuration; a run that differs is logged as a `thread` event (TLC judges it against the solo event),
+    // and one `storm` event per thread says how many runs there were.
+    {
+        let per = args.num("storm", 6000) as usize;
+        let mut short: Vec<(usize, Vec<Vec<usize>>)> = vec![];
+        for i in 0..npool {
+            if let Some(line) = solo_text.get(i) {
+                if let Ok(v) = serde_json::from_str::<serde_json::Value>(&format!("{{{}}}", line)) {
+                    if v["outcome"] == "ok" {
+                        let items: Vec<Vec<usize>> = v["items"].as_array().map(|a| a.iter().map(|x| x.as_array().map(|y| y.iter().map(|z| z.as_u64().unwrap_or(0) as usize).collect()).unwrap_or_default()).collect()).unwrap_or_default();
+                        if !items.is_empty() && items.len() <= 12 {
+                            short.push((i, items));
+                        }
+                    }
+                }
+            }
+        }
+        if !short.is_empty() && per > 0 {
+            let short = Arc::new(short);
+            let barrier = Arc::new(std::sync::Barrier::new(threads));
+            let mut hs = vec![];
+            for t in 0..threads {
+                let (shared, short, barrier) = (shared.clone(), short.clone(), barrier.clone());
+                hs.push(std::thread::spawn(move || {
+                    barrier.wait();
+                    let mut devs: Vec<(usize, Option<(Vec<Vec<usize>>, usize)>)> = vec![];
+                    for r in 0..per {
+                        let (id, want) = &short[(t + r) % short.len()];
+                        let cfg = &shared[*id];
+                        let cap = want.len() + 2;
+                        let got = guarded(|| {
+                            let mut it = cfg.evaluator().into_iter();
+                            let mut items = vec![];
+                            while let Some(sd) = it.next() {
+                                items.push(item(&sd));
+                                if items.len() > cap {
+                                    break;
+                                }
+                            }
+                            let after = (0..2).filter(|_| it.next().is_some()).count();
+                            (items, after)
+                        });
+                        let same = match &got {
+                            Some((items, after)) => items == want && *after == 0,
+                            None => false,
+                        };
+                        if !same && devs.len() < 3 {
+                            devs.push((*id, got));
+                        }
+                    }
+                    (t, devs)
+                }));
+            }
+            for h in hs {
+                let (t, devs) = h.join().unwrap();
+                out.line(&format!("{{\"op\":\"storm\",\"thread\":{},\"runs\":{},\"configs\":{},\"differing\":{}}}", t, per, short.len(), devs.len()));
+                for (id, got) in devs {
+                    match got {
+                        Some((items, after)) => out.line(&format!("{{\"op\":\"thread\",\"id\":{},\"thread\":{},\"items\":{},\"after\":{},\"storm\":1}}", solo_line[id], t, items_json(&items), after)),
+                        None => out.line(&format!("{{\"op\":\"thread\",\"id\":{},\"thread\":{},\"items\":[[-2]],\"after\":-2,\"storm\":1}}", solo_line[id], t)),
+                    }
+                }
             }
         }
     }
